@@ -29,14 +29,16 @@ def bit32(data: bytes, order) -> bytes:
 SPEC = dict(
     manifest=dict(
         category='proof',
-        text="crc.py's integer loops and tables are translated to Lean on every run; Lean proves, for every byte string, that the translated code equals the bit-at-a-time CRC-16/XMODEM and CRC-32C definitions (256-entry table obligations by kernel evaluation, per-byte lemma by xor-linearity, induction over the input).",
-        level_note='Trusted: Lean kernel (propext, Classical.choice, Quot.sound only), the 150-line Python->Lean expression translator, Spec/Crc.lean as the CRC definitions, int.to_bytes modelled by hand. The correspondence (driver vs library vs independent bitwise oracle) additionally ties the compiled model to the library on ~9k (quick) / 220k (thorough) inputs.',
+        text="crc.py's integer loops and tables are translated to Lean on every run; Lean proves, for every byte string, that the translated code equals the bit-at-a-time CRC-16/XMODEM and CRC-32C definitions (256-entry table obligations by kernel evaluation, per-byte lemma by xor-linearity, induction over the input). Also proved for every record and every amount of zero padding: crc16(record || crc16(record) || zeros) = 0000 and crc32c(record || un-inverted little-endian register || zeros) = ffffffff, for the bitwise definition and for the translated code (c18_*_framed, c18_*_framed_code) - the register-state inputs the harness samples.",
+        level_note='Trusted: Lean kernel (propext, Classical.choice, Quot.sound only), the 150-line Python->Lean expression translator, Spec/Crc.lean as the CRC definitions, int.to_bytes modelled by hand. The correspondence (driver vs library vs independent bitwise oracle) additionally ties the compiled model to the library on ~38k (quick) / ~800k (thorough) inputs, among them ~10k messages solved (with the bitwise definition) to put the register into a special state (0, all ones, 1, top bit, initial value ...) at every position up to 200 and around 256..65536 / the sizes crc.py itself mentions, followed by zero bytes and arbitrary tails.',
         technique='Lean 4 proof over a model regenerated from source + differential correspondence',
     ),
     translators=[('crc.py->Generated/Crc.lean', tr.regenerate)],
     design_ref='DESIGN.md §6 C18',
     rule='inputs: all 256 one-byte strings, all/sampled two-byte strings, seeded random strings of length 0..4096 '
-         '(both byte orders for CRC-32C); distinct = distinct (function, input); every input is non-trivial except the empty string',
+         '(both byte orders for CRC-32C); messages SOLVED to put the register into a special state (0, all ones, 1, top bit, initial value ..) at '
+         'every position up to 200 and around 256..65536 and the sizes the current source mentions, then zero bytes and arbitrary tails '
+         '(record || un-inverted crc || zero padding || tail); distinct = distinct (function, input); every input is non-trivial except the empty string',
     trusted_base=['harness/translate/pyexpr.py + crc.py (Python int loop -> Lean Nat fold)',
                   'Spec/Crc.lean is the bitwise definition of CRC-16/XMODEM and CRC-32C',
                   'int.to_bytes modelled by toBytesBE?/toBytesLE?'],
@@ -113,7 +115,47 @@ def check_inputs(ctx, datas):
                     ctx.count('driver_disagreements')
 
 
+CRC_FILES = ['pytoniq_core/crypto/crc.py']
+
+
+def check_states(ctx):
+    """Round 10 class: messages that put the CRC register into a special state (0, all ones, 1, top bit, initial value ...) at a chosen
+    position - every position up to 200 (all offsets mod 8, totals 2..290), around 256 / 512 / 1024 / 4096 / 65536 and around every size
+    the CURRENT crc.py compares / slices / masks with - followed by zero bytes and arbitrary tails (harness/gen/crcstates.py:
+    `record || un-inverted crc(record) || zero padding || tail` and its siblings).  Oracle: the bit-at-a-time definition continued from
+    the solved state (independent of the library); messages up to 300 bytes are re-checked from scratch with bit16 / bit32."""
+    from ..gen import crcstates as cs
+    from ..gen.literals import source_thresholds
+    crc16, crc32c = _lib()
+    extra = [t for t in source_thresholds(CRC_FILES) if 8 <= t <= 1 << 17]
+    ctx.count('state:source-thresholds', len(extra))
+    for alg in (cs.CRC16_XMODEM, cs.CRC32C):
+        fns = [('crc16', crc16, 'big')] if alg is cs.CRC16_XMODEM else [('crc32c-little', lambda d: crc32c(d, 'little'), 'little'),
+                                                                         ('crc32c-big', lambda d: crc32c(d, 'big'), 'big')]
+        reqs, exps = [], []
+        for d, reg, label in cs.register_state_messages(alg, ctx.rng, extra_positions=extra, per_position=ctx.n(6, 12)):
+            ctx.count(f'state:{alg.name}:{label.split("=")[1].split("@")[0]}')
+            for name, f, order in fns:
+                want = alg.value(reg).to_bytes(alg.nbytes, order)
+                if len(d) <= 300 and want != (bit16(d) if name == 'crc16' else bit32(d, order)):
+                    raise AssertionError(f'harness: crcstates oracle != bitwise definition on {label}')
+                got = _call(f, d)
+                ctx.case((name, d), sample={'fn': name, 'class': label, 'len': len(d)})
+                if got != want:
+                    ctx.fail(f'{name}:{d.hex()[:64]}', f'{name} differs from the bitwise definition on a message that reaches a special register state ({label})',
+                             {'fn': name, 'data': d.hex(), 'class': label}, got.hex() if got else 'err', want.hex())
+                elif ctx.driver_ok and len(d) <= 4200:
+                    reqs.append(f'crc16 {d.hex()}' if name == 'crc16' else f'crc32c {d.hex()} {0 if order == "little" else 1}')
+                    exps.append((name, d, 'ok ' + got.hex()))
+        if reqs:
+            for (name, d, lib), m in zip(exps, ctx.model.run(reqs)):
+                if m != lib:
+                    ctx.corr_broken(f'driver != library on {name}({d.hex()[:40]}) [register-state class]: {m} vs {lib} (library == bitwise oracle)')
+                    ctx.count('driver_disagreements')
+
+
 def run(ctx):
+    check_states(ctx)
     batch = []
     for d in inputs(ctx):
         batch.append(d)
